@@ -337,6 +337,24 @@ def check_version_ordering(ctx):
         raise AnalysisError('C16.R9 cannot evaluate the ProtocolVersion ordering symbolically (not a comparison of major with major and minor with minor): %s' % unknown[:2])
 
 
+def check_trailer(ctx):
+    """C16.R10: a reader whose element list depends on the version refuses what it did not consume."""
+    from ..ttlv import Schema
+    ctx.rule('C16.R10', 'every structure reader whose accepted elements depend on the KMIP version ends, on every path to a normal return, with the trailing-data check is_oversized(<local stream>): elements that exist only under a later version are then refused under an earlier one instead of being skipped silently')
+    sch = Schema(ctx.src)
+    n = 0
+    for ref, rf, wf in sch.codec_classes():
+        R = sch.extract(ref, rf, 'read')
+        if not any(e['guards'] for e in R.events):
+            continue
+        n += 1
+        g = CFG(rf)
+        tn = [x for x in g.nodes for c in calls_at(x) if isinstance(c.func, ast.Attribute) and c.func.attr == 'is_oversized']
+        ctx.check(bool(tn) and g.all_paths_pass(g.entry, g.exit, tn), 'C16.R10', '%s|trailer-check-on-every-path' % ref[1], '%s:%s %s.read' % (ref[0], rf.lineno, ref[1]),
+                  'is_oversized on every path to the return', 'a path through %s.read returns without the trailing-data check: under an earlier version the elements of a later version are left unread and ignored, and the request is processed without them' % ref[1])
+    ctx.count('version_dependent_readers', n, 15)
+
+
 def run(ctx):
     src = ctx.src
     m = EngineModel(src)
@@ -758,3 +776,4 @@ def run(ctx):
     check_field_gates(ctx)
     ctx.assumptions += ['T_OPMIN / T_ATTR_ADDED / T_ATTR_DEPRECATED transcribe the KMIP 1.0-2.0 specifications']
     check_version_ordering(ctx)
+    check_trailer(ctx)
